@@ -30,6 +30,15 @@ Closure == <<
   <<Def("fs", Arr(<<>>)), ForIn("k", "_", Arr(<<I(5), I(6)>>), <<Push1(Fn0(<<Inc("k"), Ret(Id("k"))>>))>>), F2>>,
   <<Def("mk", Fn0(<<Def("n", I(0)), Ret(Fn0(<<Inc("n"), Ret(Id("n"))>>))>>)),
     Def("a", C0(Id("mk"))), Def("b", C0(Id("mk"))), Ret(Arr(<<C0(Id("a")), C0(Id("a")), C0(Id("b"))>>))>>,
+  \* instances of one function literal with different captured variables calling each other in tail position: a
+  \* pipeline of wrappers, and closures made in a loop calling their successor
+  <<Def("mk", Fn(<<"k", "next">>, FALSE, <<Ret(Fn(<<"v">>, FALSE, <<If(Bin("==", Id("next"), U), <<Ret(Bin("+", Id("v"), Id("k")))>>, <<>>),
+                                                                     Ret(C1(Id("next"), Bin("+", Id("v"), Id("k"))))>>))>>)),
+    Def("c", Call(Id("mk"), <<I(1), Call(Id("mk"), <<I(10), Call(Id("mk"), <<I(100), U>>)>>)>>)), Ret(Arr(<<C1(Id("c"), I(0)), C1(Id("c"), I(5))>>))>>,
+  <<Def("fs", Arr(<<>>)), For(<<Def("i", I(0))>>, Bin("<", Id("i"), I(3)), <<Inc("i")>>,
+        <<Def("j", Id("i")), Push1(Fn(<<"acc">>, FALSE, <<If(Bin("==", Id("j"), I(2)), <<Ret(Bin("+", Id("acc"), S("c")))>>, <<>>),
+                                                         Ret(C1(Idx(Id("fs"), Bin("+", Id("j"), I(1))), Bin("+", Id("acc"), S("x"))))>>))>>),
+    Ret(Arr(<<C1(Idx(Id("fs"), I(0)), S("")), C1(Idx(Id("fs"), I(1)), S(""))>>))>>,
   <<Def("x", I(1)), Def("f", Fn0(<<Ret(Id("x"))>>)), Asg("x", I(2)), Ret(C0(Id("f")))>>,
   <<Var("h"), If(T, <<Def("a", I(1)), Asg("h", Fn0(<<Inc("a"), Ret(Id("a"))>>))>>, <<>>), If(T, <<Def("b", I(10)), Inc("b")>>, <<>>),
     Ret(Arr(<<C0(Id("h")), C0(Id("h"))>>))>>,
@@ -208,7 +217,10 @@ ShadowProg(nm, i) ==
     \* the catch identifier is visible in the finally block of its statement
     [] i = 37 -> <<G, Try(<<Thr(S("e"))>>, TRUE, nm, <<Asg(nm, Id("g"))>>, TRUE, <<Ret(UU)>>)>>
     [] i = 38 -> <<G, Try(<<Thr(S("e"))>>, TRUE, nm, <<Asg(nm, Id("g"))>>, TRUE, <<Try(<<Ret(UU)>>, TRUE, "e2", <<Ret(S("c"))>>, FALSE, <<>>)>>)>>
-NShadow == 38
+    \* the builtin is used in a folded expression first, re-bound afterwards, and the new meaning used in a later folded expression
+    [] i = 39 -> <<G, Const("k", I(1)), Def("a", Bin("==", UU, Id("k"))), Def(nm, Id("g")), Ret(Arr(<<Id("a"), Bin("==", UU, Id("k")), UU>>))>>
+    [] i = 40 -> <<G, Const("k", I(1)), Def("w", Fn0(<<Def("a", Bin("==", UU, Id("k"))), Var(nm), Asg(nm, Id("g")), Ret(Arr(<<Id("a"), Bin("==", UU, Id("k"))>>))>>)), Ret(C0(Id("w")))>>
+NShadow == 40
 \* forms whose meaning (a param without argument) cannot be called with UU
 ShadowIdx == {x \in [f : {"shadow"}, nm : ShadowNames, i : 1..NShadow] : ~(x.i = 21)} \cup [f : {"shadow"}, nm : {"len"}, i : {21}]
 
